@@ -504,7 +504,7 @@ ABTI_ythread_exit(ABTI_xstream *p_local_xstream, ABTI_ythread *p_self)
              * jump to the joiner ULT.  Note that a parent ULT cannot be a
              * joiner. */
             ABTI_pool_dec_num_blocked(p_joiner->thread.p_pool);
-            ABTI_VERIF_EV(ABTI_VEV_NB_WHO, &p_joiner->thread, p_joiner->thread.p_pool, 2);
+            ABTI_VERIF_EV(ABTI_VEV_NB_WHO, &p_joiner->thread, p_joiner->thread.p_pool, 0x102); /* 0x100: join hand-off */
             ABTI_event_ythread_resume(ABTI_xstream_get_local(p_local_xstream),
                                       p_joiner, &p_self->thread);
             ABTI_VERIF_BEGIN();
